@@ -189,18 +189,21 @@ impl<T> RcInner<T> {
     pub(crate) fn increment_strong(&self) -> bool {
         #[cfg(feature = "circ_verif")]
         crate::verif::yp(crate::verif::site::INCS_ADD1);
-        let val = State::from_raw(self.state.fetch_add(COUNT, Ordering::SeqCst));
-        if val.destructed() {
-            return false;
-        }
-        if val.strong() == 0 {
+        let mut val = State::from_raw(self.state.fetch_add(COUNT, Ordering::SeqCst));
+        loop {
+            if val.destructed() {
+                return false;
+            }
+            if val.strong() != 0 {
+                return true;
+            }
             // The previous fetch_add created a permission to run decrement again.
-            // Now create an actual reference.
+            // Now create an actual reference. If the pending decrement has consumed the
+            // permission in the meantime, this addition becomes the new permission: try again.
             #[cfg(feature = "circ_verif")]
             crate::verif::yp(crate::verif::site::INCS_ADD2);
-            self.state.fetch_add(COUNT, Ordering::SeqCst);
+            val = State::from_raw(self.state.fetch_add(COUNT, Ordering::SeqCst));
         }
-        true
     }
 
     #[inline]
